@@ -219,6 +219,21 @@ func (c *compiler) write(bb *strings.Builder, i interface{}) {
 		for _, ii := range t.Value {
 			c.write(bb, ii)
 		}
+	default:
+		// a value of a named type prints like the basic type it is made of:
+		// type Role string like a string (escaped), type Level int like an int
+		switch rv := reflect.ValueOf(i); rv.Kind() {
+		case reflect.String:
+			bb.Write(unsafeGetBytes(template.HTMLEscaper(rv.String())))
+		case reflect.Bool:
+			bb.Write(unsafeGetBytes(fmt.Sprint(rv.Bool())))
+		case reflect.Int, reflect.Int8, reflect.Int16, reflect.Int32, reflect.Int64:
+			bb.Write(unsafeGetBytes(fmt.Sprint(rv.Int())))
+		case reflect.Uint, reflect.Uint8, reflect.Uint16, reflect.Uint32, reflect.Uint64:
+			bb.Write(unsafeGetBytes(fmt.Sprint(rv.Uint())))
+		case reflect.Float32, reflect.Float64:
+			bb.Write(unsafeGetBytes(fmt.Sprint(i)))
+		}
 	case breakObject:
 		// a break or continue that arrives where no loop is (a stored block
 		// replayed at the top level of a partial) ends nothing there; what
